@@ -1,16 +1,25 @@
 """C18 — initial-position helpers: shape, purity, prefix property, conversion."""
 import math
+from fractions import Fraction
 import common as C
+import zigref, gen_zigtables
 
 ID = "C18"
 LEVEL = "proof"
 DIGEST = True
-COQ_HEADER = "From MiniMcmc Require Import Model.Init."
+COQ_HEADER = "From MiniMcmc Require Import Model.Init Model.ZigOracle."
 RULE = ("init_with_seed(n, d, seed) for n, d in 0..256 (sample; all small pairs), seeds {0,1,42,2^63,u64::MAX-k,random}, f32 and "
         "f64, compared bitwise with Model.Init.init_model fed with the n*d standard-normal draws the harness replays itself "
         "from SmallRng::seed_from_u64(seed) (f32: conversion through Flocq round-to-nearest-even); init_det vs seed 42; "
-        "prefix property across two requests; init() for shape and finiteness. Non-trivial: n >= 2 and d >= 2.")
-TRUSTED = ["rand_distr::StandardNormal (ziggurat) is not modelled: draws supplied by the harness replaying the same generator"]
+        "prefix property across two requests; init() for shape and finiteness. END-TO-END: the same outputs are also computed from "
+        "the SEED ALONE inside Coq (Model.Ziggurat.init_seeded64/32 = SplitMix64 seeding, xoshiro256++, the rand_distr 0.5.1 "
+        "ziggurat with its tables regenerated from the crate source on every run, f64->f32 cast, row-major layout) and compared "
+        "bitwise with init_with_seed's result and with the harness's replayed draws; only the platform's exp/ln on the ziggurat's "
+        "slow paths (about 1.2 %% of draws) enter as supplied values, each checked against an 80-bit interval enclosure computed in "
+        "Coq. Non-trivial: n >= 2 and d >= 2.")
+TRUSTED = ["platform exp/ln on the ziggurat's wedge and tail paths: values supplied by the driver (Python math = the same libm), "
+           "each checked against Interval's 80-bit enclosure widened by 2 ulp",
+           "driver/gen_zigtables.py: decimal table literals of rand_distr's ziggurat_tables.rs converted with Python float() (correctly rounded, as rustc)"]
 ASSUMPTIONS = ["StandardNormal produces independent N(0,1) variates (distributional clause observed in C06 only)"]
 MAXU = (1 << 64) - 1
 
@@ -42,8 +51,54 @@ def generate(rng, tier):
     return cases
 
 
+def _val(t):
+    s, m, e = t
+    if s == 0:
+        return Fraction(0)
+    if s == 2:
+        return None
+    return Fraction(s * m) * Fraction(2) ** e
+
+
+def check_oracle_values(triples):
+    """every supplied exp/ln value must lie in the enclosure Coq computes for its argument, widened by 2 ulp"""
+    if not triples:
+        return None
+    flat = [v for o in triples for v in (o[0], o[1])]
+    enc = C.coq_eval("C18", COQ_HEADER, ["orc_enclosures %s" % C.zlist(flat)], tag="orc")[0]
+    for j, o in enumerate(triples):
+        v = zigref.b2f(o[2])
+        a = zigref.b2f(o[1])
+        lo, hi = _val(enc[6 * j:6 * j + 3]), _val(enc[6 * j + 3:6 * j + 6])
+        if lo is None or hi is None:
+            if o[0] == 1 and a == 0.0 and v == -math.inf:
+                continue
+            return "no enclosure for %s(%r)" % ("exp" if o[0] == 0 else "ln", a)
+        w = Fraction(2) * Fraction(abs(v)) * Fraction(2) ** -52 + Fraction(2) ** -1074
+        if not (lo - w <= Fraction(v) <= hi + w):
+            return "supplied %s(%r) = %r is outside Coq's enclosure [%r, %r]" % ("exp" if o[0] == 0 else "ln", a, v, float(lo), float(hi))
+    return None
+
+
 def run_impl(cases):
     outs = C.run_harness("C18", cases)
+    # the Coq tables must be what the crate source says now
+    rc, o, e = C.sh(["python3", gen_zigtables.__file__, "--check"])
+    tables_ok = None if rc == 0 else (o + e).strip()
+    alltri = []
+    for c, out in zip(cases, outs):
+        if "panic" in out:
+            continue
+        out["tables"] = tables_ok
+        if c.get("huge"):
+            continue
+        xs, tri = zigref.normals(int(c["seed"]), c["n"] * c["d"])
+        out["zig_ref"] = xs
+        out["zig_orc"] = [list(t) for t in tri]
+        alltri += tri
+    bad = check_oracle_values(alltri)
+    for out in outs:
+        out["orc_bad"] = bad
     # prefix property: a second, smaller request with the same d and seed
     sm = [i for i, c in enumerate(cases) if "smaller" in c]
     r = C.run_harness("C18", [dict(cases[i], n=cases[i]["smaller"]) for i in sm])
@@ -56,19 +111,25 @@ def run_impl(cases):
 def coq_term(case, out):
     if "panic" in out or case.get("huge"):
         return None
+    orc = C.zlist([t[2] for t in out["zig_orc"]])
+    seeded = "(init_seeded64 %s%%N %s %s %s)" % (case["seed"], C.natlit(case["n"]), C.natlit(case["d"]), orc)
     if case.get("big"):
-        return "init64_eval %s %s %s" % (C.zlist(out["draws"]), C.natlit(case["n"]), C.natlit(case["d"]))
-    return "(init64_eval %s %s %s) ++ (init32_eval %s %s %s)" % (
+        return "(init64_eval %s %s %s) ++ %s" % (C.zlist(out["draws"]), C.natlit(case["n"]), C.natlit(case["d"]), seeded)
+    return "(init64_eval %s %s %s) ++ (init32_eval %s %s %s) ++ (init_seeded32 %s%%N %s %s %s) ++ (normals_eval %s%%N %s %s)" % (
         C.zlist(out["draws"]), C.natlit(case["n"]), C.natlit(case["d"]),
-        C.zlist(out["draws"]), C.natlit(case["n"]), C.natlit(case["d"]))
+        C.zlist(out["draws"]), C.natlit(case["n"]), C.natlit(case["d"]),
+        case["seed"], C.natlit(case["n"]), C.natlit(case["d"]), orc,
+        case["seed"], C.natlit(case["n"] * case["d"]), orc)
 
 
 def impl_flat(case, out):
     if "panic" in out or case.get("huge"):
         return None
+    log = [v for t in out["zig_orc"] for v in (t[0], t[1])]
     if case.get("big"):
-        return out["f64"]
-    return out["f64"] + out["f32"]
+        return out["f64"] + [1] + out["f64"] + [0]
+    return (out["f64"] + out["f32"] + [1] + out["f32"] + [0]
+            + [1] + out["f64"] + [0] + log)
 
 
 def compare(case, out, model):
@@ -76,8 +137,19 @@ def compare(case, out, model):
         return "implementation panicked: " + out["panic"]
     if model is None:
         return None
-    if (out["f64"] if case.get("big") else out["f64"] + out["f32"]) != model:
-        return "init_with_seed(%d,%d,%s) differs from the row-major model of the replayed draws" % (case["n"], case["d"], case["seed"])
+    if out.get("tables"):
+        return "ziggurat tables of the model are not those of the crate source: " + out["tables"]
+    if out.get("orc_bad"):
+        return "ziggurat oracle value: " + out["orc_bad"]
+    if out.get("zig_ref") is not None and out["zig_ref"] != out["draws"]:
+        return "the reference reading of xoshiro256++/ziggurat (driver/zigref.py) differs from rand_distr's draws for seed %s" % case["seed"]
+    exp = impl_flat(case, out)
+    if exp != model:
+        k = len(out["f64"]) if case.get("big") else len(out["f64"]) + len(out["f32"])
+        if list(model[:k]) != exp[:k]:
+            return "init_with_seed(%d,%d,%s) differs from the row-major model of the replayed draws" % (case["n"], case["d"], case["seed"])
+        return ("init_with_seed(%d,%d,%s) differs from Model.Ziggurat.init_seeded: the result is not what seed -> SplitMix64 -> "
+                "xoshiro256++ -> ziggurat -> row-major layout gives" % (case["n"], case["d"], case["seed"]))
     return None
 
 
@@ -121,4 +193,8 @@ def nontrivial(case, out):
 
 
 def extra(cases, outs, model):
-    return {"prefix_checks": sum(1 for c in cases if "smaller" in c), "empty_shapes": sum(1 for c in cases if c["n"] * c["d"] == 0)}
+    uses = sum(len(o.get("zig_orc") or []) for o in outs)
+    draws = sum(len(o.get("zig_ref") or []) for o in outs)
+    return {"ziggurat": {"draws_computed_in_coq_from_seed": draws, "slow_path_oracle_values": uses,
+                         "tail_events": sum(1 for o in outs for t in (o.get("zig_orc") or []) if t[0] == 1) // 2},
+            "prefix_checks": sum(1 for c in cases if "smaller" in c), "empty_shapes": sum(1 for c in cases if c["n"] * c["d"] == 0)}
